@@ -1149,7 +1149,9 @@ func init() {
 		one, str := gInt(1), gStr("rec")
 		for _, kn := range []string{"Atype", "zKeyOrder", "a.b", "x.y.z", "Atypes", "zKeyOrder2"} {
 			for _, asStr := range []bool{false, true} {
-				k := gkey{Str: asStr, N: []byte(kn)}
+				// a dotted symbol made by the reader names a path and is refused as a key (hset, C14); the
+				// symbol of that name that the JSON decoder makes (no path flag) is an ordinary key
+				k := gkey{Str: asStr, N: []byte(kn), Raw: !asStr && strings.Contains(kn, ".")}
 				a := gkey{N: []byte("a")}
 				lab := "keyname-" + kn
 				emit("e", gHash("hash", []gkey{k}, one), lab)
